@@ -179,6 +179,12 @@ def _same_var(a, b):
             x = x[2][0].single_atom()
         return x
     a, b = strip(a), strip(b)
+    # a row view `var[k]` (k the running segment index) that was written to belongs to var
+    for _ in range(2):
+        if b[0] == 'idx' and isinstance(b[2], Poly) and b[2].single_atom() is not None and b[2].single_atom()[0] == 'iter':
+            b = strip(b[1])
+        if a[0] == 'idx' and isinstance(a[2], Poly) and a[2].single_atom() is not None and a[2].single_atom()[0] == 'iter':
+            a = strip(a[1])
     if a == b:
         return True
     return a[0] == 'loop' and b[0] == 'loop' and a[1] == b[1]
